@@ -3,6 +3,8 @@ CONSTANTS
   Classes <- Classes4
   Outs <- OutsC04
   Durs = {0, 2}
+  CDurs <- ZeroDur
+  EDurs <- ZeroDur
   Rets <- RetsOne
   Advs <- AdvsExact
   Decs <- DecsAll
